@@ -535,7 +535,7 @@ class _FS:
 
 
 def _save(ci, fi, tape):
-    specs = [('simple', ['gnm', 3, 1], ['kthlist', 'gml', 'dot', 'dimacs']), ('simple', ['grid', 2, 2, 'addedges', 1], ['kthlist', 'gml', 'dot', 'dimacs']),
+    specs = [('simple', ['gnm', 3, 1], ['kthlist', 'gml', 'dot', 'dimacs']), ('simple', ['grid', 2, 2, 'plantclique', 3, 'addedges', 1, 'splitedges', 1], ['kthlist', 'gml', 'dot', 'dimacs']),
              ('bipartite', ['glrd', 2, 3, 2], ['kthlist', 'gml', 'dot', 'matrix']), ('bipartite', ['empty', 2, 2, 'plantbiclique', 1, 2], ['kthlist', 'gml', 'dot', 'matrix']),
              ('dag', ['pyramid', 2], ['kthlist', 'gml', 'dot', 'dimacs']), ('dag', ['path', 11], ['kthlist', 'gml', 'dot', 'dimacs'])]
     gt, spec, fmts = specs[ci]
